@@ -1,7 +1,7 @@
 (* Property C10 — UDP datagram fidelity and session isolation.
    Model: Udp.v (session table of the reverse UDP listener; dispatch of frames by session id) and the codecs of
    C03 (SOCKS5 UDP header, RPFM frame) for payload fidelity. *)
-From RP Require Import Base Target Socks Frames Frag FragProofs C03Proofs Udp UdpProofs QuicDgram QuicDgramProofs.
+From RP Require Import Base Stream StreamProofs Target Socks Frames Frag FragProofs C03Proofs Udp UdpProofs QuicDgram QuicDgramProofs.
 From RP.Gen Require Gen_udp.
 
 (* every datagram, the first of a session included, is handed on exactly once and in order *)
@@ -120,3 +120,18 @@ Theorem C10_waiting_demux_refuted :
   drun false 2 [(1, []); (2, [])] ops = [fr 2; fr 2].
 Proof. exact waiting_demux_starves_neighbours. Qed.
 Print Assumptions C10_waiting_demux_refuted.
+
+(* ---- UDP frames inline on a stream (UDP over an HTTP hop, QUIC inline mode) ------------------------------------ *)
+(* Any list of encodable frames written one after the other, ANY segmentation of the byte stream: the reader delivers
+   exactly those frames - session id, address, payload unchanged -, each once, in order, and then a clean end of stream. *)
+Theorem C10_inline_stream_exact : forall fs bs cs,
+  Forall frame_ok fs -> encode_all fs = Ok bs -> wf_chunks cs -> concat cs = bs ->
+  sfr_all (S (length fs)) [] cs = (fs, Ok tt).
+Proof. exact inline_stream_exact. Qed.
+Print Assumptions C10_inline_stream_exact.
+
+Example C10_inline_example :
+  let f1 := mk_frame (Some (TV4 2130706433 53)) 7 [1; 2; 3] in
+  let f2 := mk_frame None 7 [] in
+  exists bs, encode_all [f1; f2] = Ok bs /\ sfr_all 3 [] [firstn 5 bs; skipn 5 bs] = ([f1; f2], Ok tt).
+Proof. eexists. split; [vm_compute; reflexivity|vm_compute; reflexivity]. Qed.
